@@ -9,7 +9,7 @@ pub const NAMES: &[&str] = &[
     "stdlib::py_mod", "stdlib::py_floor_div", "stdlib::py_div",
     "core::py_mod_f64_impl", "stdlib::py_mod_f64", "stdlib::py_floor_div_f64",
     "core::str_char_at", "core::str_slice", "stdlib::str_index", "stdlib::str_slice",
-    "stdlib::list_get", "stdlib::list_get_mut", "stdlib::list_slice", "stdlib::dict_get", "stdlib::range",
+    "stdlib::list_get", "stdlib::list_get_mut", "stdlib::list_slice", "stdlib::dict_get", "stdlib::dict_get_str", "stdlib::range",
     "core::policy",
 ];
 
@@ -304,6 +304,18 @@ pub fn call(oracle: &str, v: &Value) -> Value {
             } else { (matches!(&got, Err(mm) if *mm == msg), json!({"panicked": msg})) };
             verdict(ok, obs, e, v, "dict[key]")
         }
+        "stdlib::dict_get_str" => {
+            let key = gs(v, "key");
+            let present = v["present"].as_bool().unwrap_or(false);
+            let mut m: HashMap<String, i64> = HashMap::new();
+            m.insert("other".to_string(), 1);
+            if present { m.insert(key.clone(), 42); }
+            let got = guarded(|| *incan_stdlib::collections::dict_get(&m, &key));
+            let msg = format!("KeyError: '{}' not found in dict", key);
+            let obs = res_json(got.clone());
+            let (ok, e) = if m.contains_key(&key) { (matches!(&got, Ok(42)) || key == "other", json!({"returned": 42})) } else { (matches!(&got, Err(mm) if *mm == msg), json!({"panicked": msg})) };
+            verdict(ok, obs, e, v, "dict[key] with a string key: value, or KeyError echoing the whole key")
+        }
         "stdlib::range" => {
             let (a, b, c) = (gi(v, "a"), gi(v, "b"), gi(v, "c"));
             let cap = 64usize;
@@ -356,7 +368,15 @@ const GRID: &[i64] = &[i64::MIN, i64::MIN + 1, i64::MIN + 2, -(1 << 62), -461168
     1 << 62, 4611686018427387905, i64::MAX - 2, i64::MAX - 1, i64::MAX];
 const FGRID: &[f64] = &[0.0, -0.0, 1.0, -1.0, 2.0, -2.0, 3.0, -3.0, 0.5, -0.5, 7.0, -7.0, 1e-20, -1e-20, 1e300, -1e300, 5e-324, -5e-324,
     f64::MAX, f64::MIN, f64::MIN_POSITIVE, 4.0, -4.0, 1e16, -1e16, 9007199254740993.0, 0.1, -0.3, 2.5, -2.5];
-const STRS: &[&str] = &["", "a", "ab", "abc", "abcd", "héllo", "é", "日本語", "a😀b", "😀", "\n", "a\r\nb", "ééé", "abcdefgh"];
+const STRS: &[&str] = &["", "a", "ab", "abc", "abcd", "héllo", "é", "日本語", "a😀b", "😀", "\n", "a\r\nb", "ééé", "abcdefgh",
+    "¿Qué?", "ÿ", "a¿", "\u{7ff}\u{800}", "\u{ffff}x", "\u{10000}\u{10ffff}", "\u{bf}\u{80}\u{a0}", "߿¿ÿ"];
+const POOL: &[char] = &['a', 'b', 'z', 'é', '日', '😀', '¿', 'ÿ', '\u{7ff}', '\u{800}', '\u{ffff}', '\u{10000}', '\u{10ffff}', '\n', '\u{80}', '\u{bf}'];
+/// a random string over all UTF-8 encoding lengths (pool characters and arbitrary scalars)
+fn rstr(r: &mut Rng) -> String {
+    if r.below(3) == 0 { return STRS[r.below(STRS.len() as u64) as usize].to_string(); }
+    let n = r.below(7);
+    (0..n).map(|_| if r.below(2) == 0 { POOL[r.below(POOL.len() as u64) as usize] } else { char::from_u32((r.next() % 0x110000) as u32).unwrap_or('x') }).collect()
+}
 
 fn rint(r: &mut Rng) -> i64 {
     match r.below(4) { 0 => GRID[r.below(GRID.len() as u64) as usize], 1 => (r.below(21) as i64) - 10, 2 => r.next() as i64, _ => GRID[r.below(GRID.len() as u64) as usize].wrapping_add((r.below(7) as i64) - 3) }
@@ -386,9 +406,16 @@ fn gen_case(oracle: &str, r: &mut Rng, n: u64) -> Value {
         }
         "core::str_char_at" | "stdlib::str_index" => {
             let s = STRS.len() as u64;
-            if n < s * g { json!({"s": STRS[(n / g) as usize], "i": GRID[(n % g) as usize]}) } else { json!({"s": STRS[r.below(s) as usize], "i": rint(r)}) }
+            if n < s * g { json!({"s": STRS[(n / g) as usize], "i": GRID[(n % g) as usize]}) } else { json!({"s": rstr(r), "i": rint(r)}) }
         }
-        "core::str_slice" | "stdlib::str_slice" => json!({"s": STRS[r.below(STRS.len() as u64) as usize], "start": ropt(r), "end": ropt(r), "step": ropt(r)}),
+        "core::str_slice" | "stdlib::str_slice" => json!({"s": rstr(r), "start": ropt(r), "end": ropt(r), "step": ropt(r)}),
+        "stdlib::dict_get_str" => {
+            // string keys of very different lengths (the KeyError text must echo the WHOLE key)
+            let len = match r.below(4) { 0 => r.below(4), 1 => r.below(40), 2 => 60 + r.below(10), _ => r.below(400) };
+            let key: String = (0..len).map(|k| if r.below(8) == 0 { POOL[r.below(POOL.len() as u64) as usize] } else { (b'a' + ((k + r.below(3)) % 26) as u8) as char }).collect();
+            let present = r.below(3) == 0;
+            json!({"key": key, "present": present})
+        }
         "stdlib::list_get" | "stdlib::list_get_mut" => json!({"list": rlist(r), "i": rint(r)}),
         "stdlib::list_slice" => json!({"list": rlist(r), "start": ropt(r), "end": ropt(r), "step": ropt(r)}),
         "stdlib::dict_get" => json!({"keys": (0..r.below(5)).map(|_| rint(r)).collect::<Vec<_>>(), "key": rint(r)}),
